@@ -129,6 +129,25 @@ def family(tier):
             c.bs(1)
             out.append((f"degenerate: {cl} with {tl} mode", c))
 
+    # component VALUES (phase, reflectivity, loss) given as numpy scalars / integers / fractions, directly and through a Parameter (with and without a
+    # label): if the API accepts the value, the circuit must be drawable by both back-ends like any other
+    from fractions import Fraction as _Fr
+    for tl, mk in (("np.int64", lambda x: np.int64(round(x))), ("np.int32", lambda x: np.int32(round(x))), ("np.float32", lambda x: np.float32(x)), ("np.float64", lambda x: np.float64(x)),
+                   ("int", lambda x: int(round(x))), ("Fraction", lambda x: _Fr(x).limit_denominator(8))):
+        for how in ("direct", "parameter", "labelled parameter"):
+            wrap = (lambda v: v) if how == "direct" else ((lambda v: lw.Parameter(v)) if how == "parameter" else (lambda v: lw.Parameter(v, label="p")))
+            for cl, call in (("ps", lambda c: c.ps(1, wrap(mk(1.0)))), ("bs", lambda c: c.bs(0, reflectivity=wrap(mk(0.25 if "float" in tl or tl == "Fraction" else 1)))),
+                             ("loss", lambda c: c.loss(1, wrap(mk(0.5 if "float" in tl or tl == "Fraction" else 0))))):
+                c = lw.Circuit(3)
+                c.bs(0)
+                try:
+                    call(c)
+                    c.U_full
+                except Exception:  # noqa: BLE001
+                    continue        # the value is refused at construction or when the circuit is compiled: not a constructible circuit
+                c.bs(1)
+                out.append((f"degenerate: {cl} value as {tl} ({how})", c))
+
     def grp_empty_barrier(c):
         g = lw.Circuit(2)
         g.barrier([])
